@@ -233,7 +233,7 @@ def main(ctx):
     err = rd.self_validate()
     if err:
         raise common.OracleBroken(err)
-    top = ctx.pick(1024, 4096)
+    top = ctx.pick(2048, 4096)
     jobs = []
     # ranges of equal work: sum n ~ quadratic
     edges = [2]
